@@ -19,7 +19,6 @@ import json
 import logging
 import os
 import subprocess
-import sys
 import xml.etree.ElementTree as et
 import zlib
 from dataclasses import dataclass
@@ -188,8 +187,8 @@ _TTML_1 = """<?xml version="1.0" encoding="UTF-8"?>
 """
 
 _TTML_2 = """<tt xml:lang="" xmlns="http://www.w3.org/ns/ttml" xmlns:tts="http://www.w3.org/ns/ttml#styling">
- <body><div begin="10s"><p dur="2s" tts:textDecoration="underline" tts:textAlign="center">no regions<br/>no language</p>
- <p begin="3s" end="5s"><span tts:color="#00ff00" tts:fontStyle="italic">green</span></p></div></body>
+ <body><div><p begin="10s" dur="2s" tts:textDecoration="underline" tts:textAlign="center">no regions<br/>no language</p>
+ <p begin="13s" end="15s"><span tts:color="#00ff00" tts:fontStyle="italic">green</span></p></div></body>
 </tt>
 """
 
